@@ -6,7 +6,7 @@ Mirrors (file → definition):
 * `vm.rs run_not_equal`                                               → `vne` (written out arm by arm; `Props/C14.ne_is_not_eq` proves it is the negation)
 * `vm.rs run_less / run_greater / run_less_or_equal / run_greater_or_equal` (Number, Str arms) → `vlt vgt vle vge`
 * `value_key.rs impl PartialEq / Hash / PartialOrd for ValueKey`      → `keyEq / hashStream / keyCmp`
-* `number.rs impl PartialEq / Ord / Hash for KNumber`                 → `Num.eq / numCmp / numBits`
+* `number.rs impl PartialEq / Ord / Hash for KNumber`                 → `Num.eq / numCmp / numHashWord`
 * `value_sort.rs compare_values`                                      → `compareValues`
 * the `IndexMap` operations koto uses (`get_index_of`, `insert_full`, `shift_remove`,
   `swap_remove_index`, `swap_indices`, `extend`, `sort_by`)           → namespace `OMap`
@@ -18,7 +18,8 @@ Two levels for key lookup:
   when the map has ≤ 1 entry, `insert_full` always hashes.  A hash is modelled by the *stream of
   words written to the hasher* (`hashStream`); equal streams ⇒ equal hashes, and the model takes
   different streams to be different hashes (perfect hashing — an idealisation that only matters
-  for keys that are `keyEq` with different streams, i.e. finding F-C14-1).
+  for keys that are `keyEq` with different streams; since fix 7e76332 (F-C14-1) there are none:
+  `Lemmas/C14Hash.keyEq_hashEq`).
 -/
 import KotoVerif.Model.Value
 
@@ -31,10 +32,13 @@ def numIsNaN (F : FloatOps) : Num → Bool
   | .i _ => false
   | .f b => F.isNaN b
 
-/-- `KNumber::to_bits`: what `impl Hash for KNumber` writes -/
-def numBits : Num → UInt64
-  | .i n => n.toUInt64
-  | .f b => b
+/-- the word `impl Hash for KNumber` writes (since fix 7e76332): the number's `f64` value, written
+as an integer when it is integral — `let f = f64::from(n); let i = f as i64;
+if i as f64 == f { i as u64 } else { f.to_bits() }` — so that numbers that are `==` hash equally -/
+def floatHashWord (F : FloatOps) (f : UInt64) : UInt64 :=
+  if F.eq (F.ofInt (F.toInt f)) f then (F.toInt f).toUInt64 else f
+
+def numHashWord (F : FloatOps) (n : Num) : UInt64 := floatHashWord F (n.toF F)
 
 /-- `impl Ord for KNumber` (`partial_cmp` on the promoted operands, NaN ordered last) -/
 def numCmp (F : FloatOps) (a b : Num) : Ordering :=
@@ -99,25 +103,25 @@ mutual
 for null; a string writes its bytes and the 0xff terminator; a range its derived-`Hash` fields).
 Words are tagged by the `Hasher` method used (0 = write_u64/u8 word, 1 = str byte, 2 = i32 field …)
 only as far as needed to keep different shapes apart. -/
-def hashStream : Val → List UInt64
+def hashStream (F : FloatOps) : Val → List UInt64
   | .null => []
   | .bool b => [if b then 1 else 0]
-  | .num n => [numBits n]
+  | .num n => [numHashWord F n]
   | .str bs => bs.map UInt64.ofNat ++ [0xff]
   | .range a b =>
     (match a with | none => [0] | some x => [1, x.toUInt64]) ++
     (match b with | none => [0] | some (x, incl) => [1, x.toUInt64, if incl then 1 else 0])
-  | .tuple xs => hashStreamList xs
+  | .tuple xs => hashStreamList F xs
   | _ => []
-def hashStreamList : List Val → List UInt64
+def hashStreamList (F : FloatOps) : List Val → List UInt64
   | [] => []
-  | x :: xs => hashStream x ++ hashStreamList xs
+  | x :: xs => hashStream F x ++ hashStreamList F xs
 end
 
-def hashEq (a b : Val) : Bool := hashStream a == hashStream b
+def hashEq (F : FloatOps) (a b : Val) : Bool := hashStream F a == hashStream F b
 
 /-- what a hashed `IndexMap` probe accepts: same hash and `Equivalent` -/
-def keyEqH (F : FloatOps) (a b : Val) : Bool := hashEq a b && keyEq F a b
+def keyEqH (F : FloatOps) (a b : Val) : Bool := hashEq F a b && keyEq F a b
 
 mutual
 /-- `impl PartialOrd for ValueKey` (used by `map.sort` without arguments) -/
@@ -276,11 +280,34 @@ def swapIndices (a b : Nat) (es : List (Val × β)) : Option (List (Val × β)) 
   | some x, some y => some ((es.set a y).set b x)
   | _, _ => none
 
-/-- `run_index_assign`, Map arm, for a valid index `i` and a 2-tuple `(k, v)`:
-`swap_remove_index(i); insert(k, v); swap_indices(i, len - 1)`; `none` = panic (F-C06-4) -/
+/-- the three IndexMap calls of `run_index_assign` (Map arm) for a valid index `i` and a 2-tuple
+`(k, v)`: `swap_remove_index(i); insert(k, v); swap_indices(i, len - 1)`; `none` = `swap_indices`
+panics (reachable only when `k` is present at another index — excluded by the check below) -/
 def indexAssign (m : Val → Val → Bool) (i : Nat) (k : Val) (v : β) (es : List (Val × β)) :
     Option (List (Val × β)) :=
   swapIndices i (es.length - 1) (insert m k v (swapRemoveIndex i es)).1
+
+inductive IndexAssignResult (β : Type) where
+  | replaced (es : List (Val × β))
+  | keyInUse (j : Nat)
+  | panic
+
+/-- `run_index_assign`, Map arm, since fix 6a9dccd: `get_index_of(&key)` first; a key in use at
+another index is a runtime error, otherwise the three calls above run. `mg` is the matcher of
+`get_index_of`, `mi` the one of `insert`. -/
+def indexAssignChecked (mg mi : Val → Val → Bool) (i : Nat) (k : Val) (v : β) (es : List (Val × β)) :
+    IndexAssignResult β :=
+  match findIdx mg k es with
+  | some j =>
+    if j = i then
+      (match indexAssign mi i k v es with
+       | some es' => .replaced es'
+       | none => .panic)
+    else .keyInUse j
+  | none =>
+    match indexAssign mi i k v es with
+    | some es' => .replaced es'
+    | none => .panic
 
 /-- the documented effect of `m[i] = (k, v)`: entry `i` is replaced in place -/
 def replaceAt (i : Nat) (k : Val) (v : β) (es : List (Val × β)) : List (Val × β) := es.set i (k, v)
